@@ -156,6 +156,29 @@ func panicSite(stack string) string {
 	return ""
 }
 
+// LibFrame returns the first frame of the library (github.com/gobwas/ws...)
+// below the panic in a stack trace, or the panic site if there is none.
+func LibFrame(stack []byte) string {
+	st := string(stack)
+	seenPanic := false
+	for _, l := range strings.Split(st, "\n") {
+		if strings.HasPrefix(l, "panic(") {
+			seenPanic = true
+			continue
+		}
+		if !seenPanic || strings.HasPrefix(l, "\t") {
+			continue
+		}
+		if strings.HasPrefix(l, "github.com/gobwas/ws") {
+			if i := strings.LastIndex(l, "("); i > 0 {
+				l = l[:i]
+			}
+			return l
+		}
+	}
+	return panicSite(st)
+}
+
 // Finish seals the result.
 func (r *Run) Finish() *Result {
 	r.Res.Digest = r.D.Sum()
